@@ -9,6 +9,10 @@ VK_NOTE = ("trusted: the virtual kernel model (vk/kernel.hpp, vk/ops.hpp; bound 
            "oracle; the programs are the unmodified binaries built from /repo's working tree by its own Makefile")
 DAEMON_NOTE = VK_NOTE + "; spawners are controller scripts on the daemon's pipes (their own code is covered by C09/C11/C18), time is a virtual clock"
 CHECKS = {
+ "C19": dict(engine="VK", category="model_checking", design_ref="4/C19",
+             technique="explicit-state exploration of POP3 sessions on the real qmail-pop3d (visited-set on deletion marks/vanished files, every (state, command) transition executed once against an RFC 1939 reference, maildir compared after QUIT/disconnect) and exhaustive short sessions on the real qmail-popup with a recording checker, both under the virtual kernel",
+             text="Deleting an unmarked message or truncating at a dot line depends on command order and message content; the reachable session state graph is explored completely for each maildir population and every transition is compared with the reference, so no sampled order is involved.",
+             note=VK_NOTE),
  "C14": dict(engine="VK", category="model_checking", design_ref="4/C14",
              technique="bounded-exhaustive enumeration of failure texts and recipients through the real addbounce() (paragraph-integrity invariant), and deviation-bounded exploration of bounce chains on the real qmail-send/qmail-clean/qmail-queue under the virtual kernel (every subset/order of failing recipients, hostile text, expiry, sender forms, virtual/catch-all domains, failing bounces, crash) with every daemon-queued notice parsed and checked",
              text="Paragraph integrity must hold for attacker-chosen text: every text of the bounded alphabet is executed; loop freedom and addressing are properties of the whole chain of generated messages, which is followed on the real binaries until the queue is empty for every failing subset within the bound.",
